@@ -321,7 +321,7 @@ func zz4CheckAnnotations(log []zz4E, got []*AnnotationEntry, want []int, label s
 }
 
 func zz4Shape(tampered bool) (int, int, int, int) {
-	n := verif.Concrete(verif.IntRange("n", 1, verif.Bound("entries", 3, 5)))
+	n := verif.Concrete(verif.IntRange("n", 1, verif.Bound("entries", 3, 4)))
 	legacy := 0
 	if verif.Bound("legacy", 0, 1) == 1 {
 		legacy = verif.Concrete(verif.IntRange("legacy", 0, n))
@@ -382,7 +382,7 @@ func zz4LatestHarness(tampered bool) {
 		o.nonGittuf = true
 		opts = append(opts, ForNonGittufReference())
 	}
-	fewOpts := tampered && verif.Bound("tampered.fewopts", 1, 0) == 1 // quick tier: kind filters are only explored on intact logs
+	fewOpts := tampered && verif.Bound("tampered.fewopts", 1, 1) == 1 // kind filters are only explored on intact logs
 	if !fewOpts && verif.Bool("opt.isref") {
 		o.isRefEntry = true
 		opts = append(opts, IsReferenceEntry())
